@@ -51,16 +51,14 @@ job('string_split', 'str.split_char', 'h_str_split_char', ['C09', 'C04'], timeou
 job('string_split', 'str.tokenize', 'h_str_tokenize', ['C09', 'C04'], timeout=900, solver='cadical', expect=[r'ST_string_tokenize\.postcondition\.[1267]', r'ST_string_tokenize\.step\.[1-6]', r'loop[012]\.decreases'])
 job('string_split', 'str.replace', 'h_str_replace', ['C09', 'C04'], tier='thorough', timeout=3000, solver='cadical', defines=['RP_NO_CONTENT=1'], expect=[r'ST_string_replace\.postcondition\.([1-9]|10)', r'ST_string_replace\.count\.[123]', r'ST_string_replace\.copy\.[12]', r'loop[01]\.decreases'])
 unit('string_replace_bounded', functions=[SPLIT[4]], stubs=['stp_validate_utf8'], spec=None, harness='harness/string_split_bounded.c', include=INC)
-PROPS['C09'] = dict(level='proof', explanation='split (char, const char *, ST::string separators) and tokenize proved for texts and separators of unbounded length: every step appends exactly the text between the resume point and the first occurrence the search contract reports, resumes right after it, makes at most max cuts, the last piece runs to the end (so joining reproduces the text), an empty separator leaves the text whole, tokens are exactly the maximal non-empty runs of non-delimiter bytes, every loop terminates with a decreasing measure; the searches themselves are the C07 leaf contracts (first occurrence, ASCII-only folding), re-run under this property.  replace(): the whole function, real code down to the leaf search loops, is checked BOUNDED (text <= 3 bytes, pattern <= 2, replacement <= 1 in the quick tier; text <= 4, pattern <= 2, replacement <= 2 in the thorough tier; both case modes) against a reference implementation written from the property text — a stand-in, not counted as proved; split and tokenize are cross-checked the same way (a restructured loop that no longer fits its contract is still decided, with a real input).  The unbounded loop contracts of replace (counting scan == copying scan via the ghost function REM, segment-wise content) are kept in contracts/string_split.spec and run in the thorough tier (reported as undecided there if the solver does not finish)',
+PROPS['C09'] = dict(level='proof', explanation='split (char, const char *, ST::string separators) and tokenize proved for texts and separators of unbounded length: every step appends exactly the text between the resume point and the first occurrence the search contract reports, resumes right after it, makes at most max cuts, the last piece runs to the end (so joining reproduces the text), an empty separator leaves the text whole, tokens are exactly the maximal non-empty runs of non-delimiter bytes, every loop terminates with a decreasing measure; the searches themselves are the C07 leaf contracts (first occurrence, ASCII-only folding), re-run under this property.  replace(): the whole function, real code down to the leaf search loops, is checked BOUNDED (text <= 3 bytes in the quick tier, <= 4 in the thorough tier; pattern <= 2, replacement <= 2 bytes; both case modes) against a reference implementation written from the property text — a stand-in, not counted as proved; split and tokenize are cross-checked the same way (a restructured loop that no longer fits its contract is still decided, with a real input).  The unbounded loop contracts of replace (counting scan == copying scan via the ghost function REM, segment-wise content) are kept in contracts/string_split.spec and run in the thorough tier (reported as undecided there if the solver does not finish)',
     trusted_base=['std::vector<ST::string> push/ctor/dtor contract (harness/string_split.c: appends one element, strong guarantee)', 'char_traits<char>::find/length/copy contracts (prelude.h)', 'search oracle NXT(off): the needle search is a function of the start offset on an unmodified text; its contract (NULL or an occurrence inside the range) is the one proved for find_cs/find_ci in the C07 leaf jobs', 'string(const char*, size_t, utf_validation_t) contract stub in split(const char*) (copy, or unicode_error under check_validity)'],
     assumptions=['per-step facts are machine-checked; "the pieces, joined by the separator, reproduce the text" and "tokens are exactly the maximal runs" follow by induction over steps (stated, not machine-checked)', 'overload agreement (char / const char * / ST::string) holds because each form is proved against the same step specification'])
 unit('string_split_bounded', functions=SPLIT[:4], stubs=['stp_validate_utf8'], spec=None, harness='harness/string_split_bounded.c', include=INC)
 for _t, _S in (('quick', 3), ('thorough', 4)):
     _sfx = '' if _t == 'quick' else '.%d' % _S
     _d = ['TR_CONCRETE', 'RB_S=%d' % _S, 'RB_F=2', 'RB_T=2']
-    _T = 1 if _t == 'quick' else 2
-    for _ci in (0, 1):
-      job('string_replace_bounded', 'bounded.str.replace.%s' % ('ci' if _ci else 'cs') + _sfx, 'hb_str_replace', ['C09'], tier=_t, kind='bounded', bound='text <= %d bytes, pattern <= 2, replacement <= %d, case-%s' % (_S, _T, 'insensitive' if _ci else 'sensitive'), defines=['TR_CONCRETE', 'RB_S=%d' % _S, 'RB_F=2', 'RB_T=%d' % _T, 'RB_CI=%d' % _ci], unwind=(_T + 1) * _S + 2, solver='cadical', timeout=2400, object_bits=8)
+    job('string_replace_bounded', 'bounded.str.replace' + _sfx, 'hb_str_replace', ['C09'], tier=_t, kind='bounded', bound='text <= %d bytes, pattern <= 2, replacement <= 2, both case modes' % _S, defines=_d, unwind=3 * _S + 2, solver='cadical', timeout=2400, object_bits=8)
     for _f, _fn in enumerate(['string', 'cstr', 'char']):
         job('string_split_bounded', 'bounded.str.split_%s' % _fn + _sfx, 'hb_str_split', ['C09'], tier=_t, kind='bounded', bound='text <= %d bytes, separator <= 2 bytes, %s form, both case modes, any max' % (_S, _fn), defines=_d + ['RB_SPLIT', 'RB_FORM=%d' % _f], unwind=_S + 4, solver='cadical', timeout=2400, object_bits=8)
     job('string_split_bounded', 'bounded.str.tokenize' + _sfx, 'hb_str_tokenize', ['C09'], tier=_t, kind='bounded', bound='text <= %d bytes, delimiter set <= 2 bytes' % _S, defines=_d + ['RB_SPLIT'], unwind=_S + 4, solver='cadical', timeout=2400, object_bits=8)
